@@ -22,6 +22,34 @@ from typing import Any, Dict, List, Optional, Union
 from dataclasses_json import dataclass_json
 
 
+# Arguments of the internal StartFlow/FlowStarted/FlowFinished events that are set by the interpreter itself.
+# A flow parameter (and the named call argument for it) with one of these names travels in event arguments and in
+# `FlowState.arguments` under the key "$<name>" - which cannot be written in Colang source - so that the caller's
+# argument never collides with the interpreter's own value.
+INTERNAL_FLOW_EVENT_ARGUMENTS = frozenset(
+    {
+        "flow_id",
+        "flow_instance_uid",
+        "source_flow_instance_uid",
+        "source_head_uid",
+        "flow_hierarchy_position",
+        "activated",
+    }
+)
+
+
+def flow_argument_key(param_name: str) -> str:
+    """The key under which the argument for flow parameter `param_name` is stored in flow event arguments."""
+    return f"${param_name}" if param_name in INTERNAL_FLOW_EVENT_ARGUMENTS else param_name
+
+
+def flow_parameter_name(argument_key: str) -> str:
+    """Inverse of `flow_argument_key`."""
+    if argument_key.startswith("$") and argument_key[1:] in INTERNAL_FLOW_EVENT_ARGUMENTS:
+        return argument_key[1:]
+    return argument_key
+
+
 @dataclass_json
 @dataclass
 class Source:
